@@ -314,6 +314,7 @@ def py_def(kind, toks, body_lines, name="f"):
 # body-rule IR (implicit return / docstring / generators)
 #   ["str", s] ["bytes", s] ["fstr", s] ["int", n] ["L", k, n] ["setv", n] ["param"] ["if", n, m]
 #   ["ret", n] ["yield", n] ["for", k] ["none"]
+#   ["letyield", n] ["tryyield", n] ["ifyield", n]: a `yield` lexically inside let / except / when
 
 def hy_form(b):
     k = b[0]
@@ -341,7 +342,16 @@ def hy_form(b):
         return f"(for [i [1 2]] (L {b[1]} i))"
     if k == "none":
         return "None"
+    if k == "letyield":
+        return f"(let [lv {b[1]}] (yield lv))"
+    if k == "tryyield":
+        return f"(try (raise ValueError) (except [ValueError] (yield {b[1]})))"
+    if k == "ifyield":
+        return f"(when a (yield {b[1]}))"
     raise ValueError(k)
+
+
+YIELDING = ("yield", "letyield", "tryyield", "ifyield")
 
 
 def py_expr(b):
@@ -361,8 +371,10 @@ def py_expr(b):
         return "a"
     if k == "if":
         return f"({b[1]} if a else {b[2]})"
-    if k == "yield":
+    if k in ("yield", "letyield"):
         return f"(yield {b[1]})"
+    if k == "ifyield":
+        return f"((yield {b[1]}) if a else None)"
     if k == "none":
         return "None"
     return None
@@ -376,6 +388,8 @@ def py_stmt(b):
         return [f"return {b[1]}"]
     if k == "for":
         return ["for i in [1, 2]:", f"    L({b[1]}, i)"]
+    if k == "tryyield":
+        return ["try:", "    raise ValueError", "except ValueError:", f"    yield {b[1]}"]
     return [py_expr(b)]
 
 
@@ -385,7 +399,7 @@ def py_body(forms, is_async):
     is the docstring (CPython's own rule once it is emitted as the first statement)."""
     if not forms:
         return ["return None"]
-    has_yield = any(b[0] == "yield" for b in forms)
+    has_yield = any(b[0] in YIELDING for b in forms)
     lines = []
     for b in forms[:-1]:
         lines += py_stmt(b)
@@ -412,14 +426,16 @@ def gen_body(rng):
             forms.append(rng.choice([["str", "doc text"], ["str", "doc text"], ["str", ""],
                                      ["bytes", "bdoc"], ["fstr", "fdoc", True], ["fstr", "fdoc", False]]))
             continue
-        k = rng.choice(["str", "int", "L", "L", "setv", "param", "if", "yield", "for", "none", "ret"])
+        k = rng.choice(["str", "int", "L", "L", "setv", "param", "if", "yield", "for", "none", "ret",
+                        "letyield", "tryyield", "ifyield"])
         if k == "ret" and i != n - 1:
             k = "L"
         forms.append({"str": ["str", "s%d" % next(ctr)], "int": ["int", next(ctr)],
                       "L": ["L", next(ctr), 10 * next(ctr)], "setv": ["setv", next(ctr)],
                       "param": ["param"], "if": ["if", next(ctr), next(ctr)],
                       "yield": ["yield", next(ctr)], "for": ["for", next(ctr)], "none": ["none"],
-                      "ret": ["ret", next(ctr)]}[k])
+                      "ret": ["ret", next(ctr)], "letyield": ["letyield", next(ctr)],
+                      "tryyield": ["tryyield", next(ctr)], "ifyield": ["ifyield", next(ctr)]}[k])
     return forms
 
 
@@ -719,7 +735,11 @@ def run_body(case):
     kind = case["kind"]
     forms = case["forms"]
     classes = ["body", "kind:" + kind, f"body-forms:{len(forms)}"]
-    has_yield = any(b[0] == "yield" for b in forms)
+    has_yield = any(b[0] in YIELDING for b in forms)
+    if any(b[0] in ("letyield", "tryyield", "ifyield") for b in forms):
+        classes.append("body:yield-in-nested-scope")
+        if not any(b[0] == "yield" for b in forms):
+            classes.append("body:yield-only-in-nested-scope")
     if has_yield:
         classes.append("body:async-generator" if kind.endswith("async") else "body:generator")
     if forms and forms[0][0] == "str":
